@@ -137,18 +137,20 @@ prop("C04", "c04",
 
 prop("C05", "c05",
      "Key sets of 1-3 keys (EC P-256/384/521, RSA 2048 as PS*/RS*, Ed25519, an oct key; with/without kid, duplicate kids, "
-     "with/without alg) served by a local JWKS endpoint; assertion configurations (1-2 issuers, audiences, exact scopes, "
-     "leeway, allowed algorithms; prototype plus rule-level override merged); a valid token for a chosen key with 0-2 "
+     "with/without alg) served by a local JWKS endpoint; assertion configurations (1-2 issuers, audiences, 1-2 required scopes under the exact, hierarchic or wildcard "
+     "matching strategy, leeway, allowed algorithms; prototype plus rule-level override merged); a valid token for a chosen key with 0-2 "
      "mutations from a catalogue of 33 (signature flip/truncate/empty, alg none, alg switched to HS256/384/512 keyed with the "
      "public key as PEM/DER/JWK, other alg of the key family, other/removed/unknown kid, untrusted/missing issuer, wrong/"
-     "missing audience, missing scope, exp far past / just past / inside leeway / 0 / negative / string / 1e300 / missing, "
+     "missing audience, missing scope and seven near misses of the required scopes (character prefix, prefix ending in a dot, "
+     "child, sibling, character suffix/prefix added, ancestor, one of two missing; a second unit draws only these), exp far past / just past / inside leeway / 0 / negative / string / 1e300 / missing, "
      "nbf/iat in the future or inside the leeway, re-signed with another key, 2 or 4 parts, unsigned edits of payload, "
      "subject and header). Oracle: an independent reference verifier on the Go standard library (not go-jose): an accepted "
      "token must verify under a key of the served set selected by kid (unique) or any key without kid, with key alg == token "
      "alg and allowed, trusted issuer, audience, scopes, validity within leeway; subject id and attributes must equal the "
      "signed payload. Cases within 2 s of a time boundary are don't-care. Non-trivial: >= 1 mutation; distinct by (key set, "
      "assertions, header, mutation kinds).",
-     [dict(run="^TestOnlyValidTokensYieldSubjects$", quick=2000, thorough=15000, shards_thorough=12)],
+     [dict(run="^TestOnlyValidTokensYieldSubjects$", quick=2000, thorough=15000, shards_thorough=12),
+      dict(run="^TestRequiredScopesAreMatched$", quick=1500, thorough=10000, shards_thorough=4)],
      ["tokens without exp have no upper validity bound (accepted by the reference)", "certificate validation of JWKs is not part of the statement (C10 covers certificate expiry for caching)"],
      level="Randomised generated search over tokens x key sets x assertion configurations on the assembled decision service "
            "against an independent reference verifier; the converse direction is measured only; bounded exploration.",
